@@ -6,11 +6,11 @@ ROOT = os.path.dirname(os.path.dirname(os.path.abspath(__file__)))
 cs = [c for c in (json.loads(l) for l in open(sys.argv[1] if len(sys.argv) > 1 else os.path.join(ROOT, "work/C05/cases_c05.jsonl"))) if "obs" in c]
 want = {'directed-K1-ties': ('w_K1_ties', [1]), 'directed-K1-null-key': ('w_K1_null_key', [1]), 'directed-K1-null-key-single': ('w_K1_null_key_single', [1]),
         'directed-K2-raw-order-key': ('w_K2_raw_order_key', [2]), 'directed-K3-bool-default': ('w_K3_bool_default', [3]),
-        'directed-K6-null-variable-eq': ('w_K6_eq', [6]), 'directed-K6-null-variable-ne': ('w_K6_ne', [6]), 'directed-K7-first-variable-zero': ('w_K7_first_zero', [7]),
-        'directed-agg-minmax-text-order': ('w_K9_minmax', [9]), 'directed-agg-avg-counts-null': ('w_K10_avg', [10])}
+        'directed-K6-null-variable-eq': ('w_K6_eq', [6]), 'directed-K6-null-variable-ne': ('w_K6_ne', [6]), 'directed-K7-first-variable-zero': ('w_K7_first_zero', [7])}
 # classes repaired in /repo: their directed cases now satisfy the oracle
 fixed = [('directed-K4-skip-alone', 'w_K4_skip_alone'), ('directed-K5-variable-named-like-literal', 'w_K5_literal'),
-         ('directed-K5-variable-named-like-default', 'w_K5_default'), ('directed-K8-default-with-quote', 'w_K8_quote')]
+         ('directed-K5-variable-named-like-default', 'w_K5_default'), ('directed-K8-default-with-quote', 'w_K8_quote'),
+         ('directed-agg-minmax-text-order', 'w_K9_minmax'), ('directed-agg-avg-counts-null', 'w_K10_avg')]
 out = ["(* C05Wit.v — closed witnesses: the directed cases of harness/src/bin/c05.rs (one per known-finding class) as Gallina terms,",
        "   with the model's verdict checked by vm_compute.  The same cases are replayed on the real code on every run.",
        "   (snapshot of the harness output; regenerate with tools/c05_genwit.py if the directed cases change) *)",
@@ -42,7 +42,9 @@ for k, name in [('directed-nested-exists-skip', 'w_nested_exists_skip'), ('direc
     out.append("Proof. vm_compute. repeat split; reflexivity. Qed.")
     out.append("")
 for k, name in [('directed-baseline', 'w_baseline'), ('directed-pages-unique-key', 'w_pages_unique'), ('directed-agg-count-sum', 'w_agg_count_sum'),
-                ('directed-agg-no-row', 'w_agg_no_row'), ('directed-agg-having-order-limit', 'w_agg_having'), ('directed-agg-null-group', 'w_agg_null_group'), ('directed-jsel', 'w_jsel')]:
+                ('directed-agg-no-row', 'w_agg_no_row'), ('directed-agg-having-order-limit', 'w_agg_having'), ('directed-agg-null-group', 'w_agg_null_group'), ('directed-jsel', 'w_jsel'),
+                ('directed-agg-order-by-name-of-aliased-group', 'w_agg_order_name'), ('directed-order-by-name-of-aliased-field', 'w_order_name_aliased'),
+                ('directed-pages-by-name-of-aliased-field', 'w_pages_name_aliased'), ('directed-after-by-name-of-aliased-field', 'w_after_name_aliased')]:
     c = [x for x in cs if x['kind'] == k][0]
     out.append("(* %s : %s *)" % (k, c['meta']['query'].replace('"', "'")))
     out.append("Definition %s : c05case := %s." % (name, c['coq']))
